@@ -2,7 +2,7 @@
    RND r p x is Flocq's round radix2 (FLX_exp p) with the integer rounding of mode r
    (n: ZnearestE, f: Zfloor, c: Zceil, d: Ztrunc, u: Zaway); rv is the real value of a tuple.
    Statements only; proofs are in Proofs/NormRound.v and Proofs/Ops.v. *)
-From Coq Require Import ZArith Reals.
+From Coq Require Import List ZArith Reals.
 From Flocq Require Import Core.
 From MP Require Import Algo.Base Algo.Libmpf Spec.Mpf Spec.Round Proofs.NormRound Proofs.Ops Proofs.Sticky Proofs.DivRound Proofs.SqrtRound Proofs.AddRound.
 Open Scope Z_scope.
@@ -101,6 +101,17 @@ Theorem C02_sqrt_round : forall s prec r, regular s -> msign s = 0 -> 0 < prec -
   exists y, mpf_sqrt s prec r = Ok y /\ rv y = RND r prec (sqrt (rv s)).
 Proof. exact mpf_sqrt_round. Qed.
 Print Assumptions C02_sqrt_round.
+
+(* fsum: one exact integer accumulation and a single rounding, for lists of any length whose non-zero terms have exponents
+   within 2*prec bits of each other (the window mpf_sum keeps exact; 10^6 bits when prec = 0) *)
+From MP Require Import Proofs.SumRound.
+Theorem C02_fsum_round : forall xs prec r absolute E, 0 < prec -> Forall (in_window E (2 * prec)) xs ->
+  rv (mpf_sum xs prec r absolute) = RND r prec (rsum absolute xs).
+Proof. exact mpf_sum_round. Qed.
+Print Assumptions C02_fsum_round.
+Theorem C02_fsum_exact : forall xs r absolute E, Forall (in_window E 1000000) xs ->
+  rv (mpf_sum xs 0 r absolute) = rsum absolute xs.
+Proof. exact mpf_sum_exact. Qed.
 
 (* non-vacuity: 255 rounded to 4 bits to nearest is 256 (carry out of the top bit) *)
 Example C02_witness : normalize 0 255 0 (bitcount 255) 4 RN = Mpf 0 1 8 1.
